@@ -110,6 +110,33 @@ def hmf_objective_eval_error(s, w, a, g, eps):
     return err
 
 
+def hmf_solver_excess(w, fixed, solved, which, eps=None):
+    """How far above its minimum the objective may end up because the K x K sub-problems are solved in floating point.
+
+    A backward stable solve of H x = f leaves |dx| <= c u cond(H) |x|, i.e. an excess dx^T H dx <= c^2 u^2 cond(H)^2 lmax(H) |x|^2
+    per sub-problem (c^2 taken as K^2).  Negligible next to chi^2 for noisy data, but it is the floor when the fit is (nearly)
+    exact - as many spectra as components, K + 1 pixels, very high S/N - and the sub-problems are ill-conditioned.
+    which = 'a': fixed = g (K, M), solved = a (N, K), H_i = g W_i g^T;  which = 'g': fixed = a (N, K), solved = g (K, M), H_j = a^T W_j a (+ d_j).
+    """
+    if which == 'a':
+        H = np.einsum('kj,ij,lj->ikl', fixed, w, fixed)
+        x = solved
+    else:
+        H = np.einsum('ik,ij,il->jkl', fixed, w, fixed)
+        x = solved.T
+        if eps is not None and eps > 0:
+            deg = np.full(H.shape[0], 2.0)
+            deg[0] = deg[-1] = 1.0
+            H = H + eps * deg[:, None, None] * np.eye(H.shape[1])[None]
+    if not np.isfinite(H).all():
+        return float('inf')
+    ev = np.linalg.eigvalsh(H)
+    lmax = np.abs(ev).max(axis=1)
+    lmin = np.maximum(np.abs(ev).min(axis=1), lmax * EPS)
+    K = H.shape[1]
+    return float(np.sum(K * K * EPS * EPS * (lmax / lmin) ** 2 * lmax * np.sum(x * x, axis=1)))
+
+
 def hmf_astep_residual(s, w, g, a):
     """Worst component-wise relative residual of the N normal equations G_i a_i = F_i.
 
